@@ -27,6 +27,7 @@ CONSTANTS DT,        \* dtypes of the initial rasters, e.g. {"int32","float32","
 VARIABLES objs, phase, last, ncalls, tok, nbuf,
           hist      \* history of the session <<f, args>>.. (read by the harness from simulated behaviours)
 vars == <<objs, phase, last, ncalls, tok, nbuf, hist>>
+MCView == <<objs, phase, last, ncalls, tok, nbuf>>     \* model checking: the history itself is not state
 
 BaseCoords == << <<"band", "b1">>, <<"x", "cx">>, <<"y", "cy">> >>
 BaseAttrs  == << <<"res", "r0">>, <<"crs", "c0">> >>
@@ -112,18 +113,20 @@ EffOwnShape(f, a) ==
             coords |-> Append(a.coords, <<"stats", "s0">>), attrs |-> a.attrs, dims |-> <<"stats", "y", "x">>,
             shape |-> <<7>> \o a.shape, backend |-> IF MUT = "eager_on_dask" THEN "numpy" ELSE a.backend, name |-> f]]
 
-Arity(f) == IF f \in {"crop", "zonal_apply", "zonal_stats"} THEN 2 ELSE 1
+Arity(f) == IF f \in {"crop", "zonal_apply", "zonal_stats", "zonal_crosstab", "gci", "nbr", "nbr2", "ndvi", "ndmi", "savi"} THEN 2
+            ELSE IF f \in {"arvi", "evi", "sipi", "ebbi", "true_color"} THEN 3 ELSE 1
 
 Effect(f, args) ==
   LET a == Obj(objs, args[1]) IN
-  CASE f \in {"slope", "focal_mean", "hotspots"} -> EffNormal(f, a)
+  CASE f \in Normal      -> EffNormal(f, a)
     [] f = "trim"        -> EffView(f, a)
     [] f = "crop"        -> EffView(f, Obj(objs, args[2]))
     [] f = "perlin"      -> EffPerlin(a)
     [] f = "viewshed"    -> EffViewshed(a)
     [] f = "zonal_apply" -> EffApply(a, Obj(objs, args[2]))
-    [] f = "zonal_stats" -> EffTable(f, a, Obj(objs, args[2]))
-    [] f = "focal_stats" -> EffOwnShape(f, a)
+    [] f \in Tables      -> EffTable(f, a, Obj(objs, args[2]))
+    [] f \in {"focal_stats", "true_color"} -> EffOwnShape(f, a)
+    [] f = "generate_terrain" -> EffPerlin(a)
 
 \* the domain: configurations the library supports (AliasOps!Supported) and well-formed arguments
 Enabled(f, args) ==
